@@ -42,6 +42,7 @@ import (
 	"github.com/ethereum/go-ethereum/core/rawdb"
 	"github.com/ethereum/go-ethereum/core/types"
 	"github.com/ethereum/go-ethereum/internal/verif/mc"
+	"github.com/ethereum/go-ethereum/log"
 )
 
 // ---------------------------------------------------------------------------
@@ -449,7 +450,13 @@ type c40Sys struct {
 	pendA, pendB     []c40Point
 
 	opsDone  []string
-	err      error
+	// injection of a second target update at an intermediate indexing progress (hook point)
+	caseDesc  any // replay descriptor of the enclosing r.Case (injection sweep), nil inside mc.Explore
+	hookCount int
+	injectOp  *c40Op
+	injectAt  int
+	injected  bool
+	err       error
 	npoints  int
 	nlocked  int
 	disabled bool
@@ -540,6 +547,18 @@ func (s *c40Sys) hook() {
 		return
 	}
 	s.fm.indexLock.RUnlock()
+	s.hookCount++
+	if s.injectOp != nil && !s.injected && s.hookCount == s.injectAt {
+		// delivered after the observation of this point; the indexer picks it up in the processSingleEvent
+		// call that follows the hook
+		if s.enabledOp(*s.injectOp) {
+			defer func() {
+				s.injected = true
+				s.opLabel += "~" + s.injectOp.name
+				s.retarget(*s.injectOp)
+			}()
+		}
+	}
 	if s.err != nil {
 		return
 	}
@@ -550,6 +569,13 @@ func (s *c40Sys) hook() {
 		}
 	}()
 	s.observe(false)
+}
+
+func (s *c40Sys) replayDesc() any {
+	if s.caseDesc != nil {
+		return s.caseDesc
+	}
+	return map[string]any{"explore": "C40/" + s.cfg.name, "ops": append([]string{}, s.opsDone...)}
 }
 
 func (s *c40Sys) fail(err error) {
@@ -819,7 +845,7 @@ func (s *c40Sys) observe(quiescent bool) {
 		rng := f.indexedRange
 		desc := fmt.Sprintf("%s; state {%s} reached by %v at %s#%d. Any GetPotentialMatches call that finds a potential match in that map "+
 			"runs into the same panic on a matcher worker goroutine (process crash).", pmsg, s.stateStr(), s.opsDone, s.opLabel, s.npoints)
-		replay := map[string]any{"explore": "C40/" + s.cfg.name, "ops": s.opsDone}
+		replay := s.replayDesc()
 		if rng.blocks.IsEmpty() && !rng.maps.IsEmpty() {
 			// one stable key: rendered maps but an empty fully-indexed block range (the head block starts before the first rendered map)
 			s.cfg.r.Violation("C40:query-path-panic:empty-indexed-block-range-with-rendered-maps", desc, replay)
@@ -913,7 +939,7 @@ func (s *c40Sys) validate(pts []c40Point, sr SyncRange, sess string) {
 				sess, s.stateStr(), vb.First(), vb.AfterLast(), sr.IndexedBlocks.First(), sr.IndexedBlocks.AfterLast(), ivp, pt.label, pt.e.state, vd.err)
 			var kn *c40Known
 			if errors.As(vd.err, &kn) {
-				s.cfg.r.Violation(kn.key, fmt.Sprintf("ops %v: %v", s.opsDone, err), map[string]any{"explore": "C40/" + s.cfg.name, "ops": append([]string{}, s.opsDone...)})
+				s.cfg.r.Violation(kn.key, fmt.Sprintf("ops %v: %v", s.opsDone, err), s.replayDesc())
 				continue
 			}
 			s.fail(err)
@@ -1015,8 +1041,62 @@ func (cfg *c40Cfg) check(e *c40Eval, vb common.Range[uint64], ivp string, ivok b
 
 // ---- mc.Sys
 
-func (s *c40Sys) Enabled(op int) bool {
+func (s *c40Sys) Enabled(op int) bool { return s.enabledOp(s.cfg.ops[op]) }
+
+func (s *c40Sys) Apply(op int) error {
+	if s.err != nil {
+		return s.err
+	}
 	o := s.cfg.ops[op]
+	s.opLabel = o.name
+	s.opsDone = append(s.opsDone, o.name)
+	s.hookCount = 0
+	if o.kind == c40Hist {
+		s.stop()
+		s.history = uint64(o.n)
+		s.start()
+	} else {
+		s.retarget(o)
+	}
+	s.quiesce()
+	if s.err == nil && !s.disabled {
+		// the quiescent index must describe the canonical chain
+		if p, ok := c40PathOf(s.fm.indexedView); !ok || p != s.path {
+			s.fail(fmt.Errorf("idle indexer's view %q is not the canonical chain %q", p, s.path))
+		}
+	}
+	if s.disabled {
+		s.cfg.r.Outcome("op-left-indexer-disabled")
+		if os.Getenv("C40_DEBUG") != "" {
+			fmt.Printf("C40DBG disabled after %v path=%q hist=%d cut=%d\n", s.opsDone, s.path, s.history, s.cutoff)
+		}
+	}
+	return s.err
+}
+
+// retarget changes the canonical chain / history cutoff and hands the new target to the indexer. It is
+// called from the main goroutine while the indexer is parked, or from the hook on the indexer goroutine
+// (SetTarget never blocks).
+func (s *c40Sys) retarget(o c40Op) {
+	n := len(s.path)
+	switch o.kind {
+	case c40Ext:
+		s.setCanonical(s.path + strings.Repeat("a", o.n))
+	case c40Reorg:
+		flip := byte('a')
+		if s.path[n-o.d] == 'a' {
+			flip = 'b'
+		}
+		s.setCanonical(s.path[:n-o.d] + string(flip) + strings.Repeat("a", o.n-1))
+	case c40Back:
+		s.setCanonical(s.path[:n-o.d])
+	case c40Cut:
+		s.cutoff = uint64(o.n)
+	}
+	s.fm.SetTarget(s.view(), s.cutoff, 0)
+}
+
+func (s *c40Sys) enabledOp(o c40Op) bool {
 	n := len(s.path)
 	switch o.kind {
 	case c40Ext:
@@ -1033,49 +1113,6 @@ func (s *c40Sys) Enabled(op int) bool {
 	return false
 }
 
-func (s *c40Sys) Apply(op int) error {
-	if s.err != nil {
-		return s.err
-	}
-	o := s.cfg.ops[op]
-	s.opLabel = o.name
-	s.opsDone = append(s.opsDone, o.name)
-	n := len(s.path)
-	switch o.kind {
-	case c40Ext:
-		s.setCanonical(s.path + strings.Repeat("a", o.n))
-		s.fm.SetTarget(s.view(), s.cutoff, 0)
-	case c40Reorg:
-		flip := byte('a')
-		if s.path[n-o.d] == 'a' {
-			flip = 'b'
-		}
-		s.setCanonical(s.path[:n-o.d] + string(flip) + strings.Repeat("a", o.n-1))
-		s.fm.SetTarget(s.view(), s.cutoff, 0)
-	case c40Back:
-		s.setCanonical(s.path[:n-o.d])
-		s.fm.SetTarget(s.view(), s.cutoff, 0)
-	case c40Hist:
-		s.stop()
-		s.history = uint64(o.n)
-		s.start()
-	case c40Cut:
-		s.cutoff = uint64(o.n)
-		s.fm.SetTarget(s.view(), s.cutoff, 0)
-	}
-	s.quiesce()
-	if s.err == nil && !s.disabled {
-		// the quiescent index must describe the canonical chain
-		if p, ok := c40PathOf(s.fm.indexedView); !ok || p != s.path {
-			s.fail(fmt.Errorf("idle indexer's view %q is not the canonical chain %q", p, s.path))
-		}
-	}
-	if s.disabled {
-		s.cfg.r.Outcome("op-left-indexer-disabled")
-	}
-	return s.err
-}
-
 func (s *c40Sys) Key() string {
 	if s.fm == nil {
 		return ""
@@ -1088,6 +1125,125 @@ func (s *c40Sys) Key() string {
 }
 
 // ---------------------------------------------------------------------------
+
+// operations that can be delivered while the indexer is working. A target that is an ANCESTOR of the chain being
+// rendered (plain roll back) is not delivered mid-rendering: on the unchanged tree the log iterator then walks past
+// the new head (logIterator.next -> ChainView.RawReceipts panics "invalid block number" on the indexer goroutine,
+// which cannot be recovered); reported separately, see the check's level_note.
+var c40InjOps = map[string]c40Op{
+	"reorg1+1": {"reorg1+1", c40Reorg, 1, 1},
+	"reorg2+1": {"reorg2+1", c40Reorg, 2, 1},
+	"reorg2+2": {"reorg2+2", c40Reorg, 2, 2},
+	"ext1":     {"ext1", c40Ext, 0, 1},
+	"cut2":     {"cut2", c40Cut, 0, 2},
+	"cut4":     {"cut4", c40Cut, 0, 4},
+}
+
+// c40InjectSweep: for base histories x first operation X x second operation Y, Y's target update is delivered
+// at EVERY intermediate indexing progress k (hook point) of X's transition instead of after it.
+func c40InjectSweep(r *mc.R, cfg *c40Cfg, bases [][]string, xs, ys []string) {
+	opIdx := func(name string) int {
+		for i, o := range cfg.ops {
+			if o.name == name {
+				return i
+			}
+		}
+		return -1
+	}
+	type icase struct {
+		Inject string   `json:"inject"`
+		Base   []string `json:"base"`
+		X      string   `json:"x"`
+		Y      string   `json:"y"`
+		K      int      `json:"k"`
+	}
+	prep := func(base []string, x string) (*c40Sys, error) {
+		s := c40New(cfg)
+		for _, b := range base {
+			i := opIdx(b)
+			if i < 0 || !s.Enabled(i) {
+				s.close()
+				return nil, nil
+			}
+			if err := s.Apply(i); err != nil {
+				s.close()
+				return nil, err
+			}
+		}
+		if i := opIdx(x); i < 0 || !s.Enabled(i) {
+			s.close()
+			return nil, nil
+		}
+		return s, nil
+	}
+	// pass 1: number of hook points of X alone after each base
+	type bx struct {
+		base []string
+		x    string
+		n    int
+	}
+	var bxs []bx
+	for _, b := range bases {
+		for _, x := range xs {
+			bxs = append(bxs, bx{b, x, 0})
+		}
+	}
+	r.Parallel(len(bxs), func(i int) {
+		s, err := prep(bxs[i].base, bxs[i].x)
+		if s == nil {
+			_ = err // a failing base history is reported by the exploration itself
+			return
+		}
+		defer s.close()
+		if s.Apply(opIdx(bxs[i].x)) == nil {
+			bxs[i].n = s.hookCount
+		}
+	})
+	var cases []icase
+	for _, e := range bxs {
+		for _, y := range ys {
+			if _, ok := c40InjOps[y]; !ok {
+				panic("unknown injected op " + y)
+			}
+			for k := 1; k <= e.n; k++ {
+				cases = append(cases, icase{"C40/" + cfg.name, e.base, e.x, y, k})
+			}
+		}
+	}
+	r.Bound(cfg.name+".inject_cases", len(cases))
+	var fired, skipped atomicCounter
+	r.Parallel(len(cases), func(i int) {
+		c := cases[i]
+		r.Case(c, func() error {
+			s, err := prep(c.Base, c.X)
+			if s == nil {
+				return err
+			}
+			defer s.close()
+			y := c40InjOps[c.Y]
+			s.injectOp, s.injectAt = &y, c.K
+			s.caseDesc = c
+			// Y must be applicable to the chain X produces; checked when it fires
+			err = s.Apply(opIdx(c.X))
+			if s.injected {
+				fired.add(1)
+			} else {
+				skipped.add(1)
+			}
+			return err
+		})
+	})
+	r.OutcomeN("inject:second-target-delivered-mid-indexing", fired.get())
+	r.OutcomeN("inject:not-delivered(second op not applicable)", skipped.get())
+}
+
+type atomicCounter struct {
+	mu sync.Mutex
+	n  int64
+}
+
+func (a *atomicCounter) add(d int64) { a.mu.Lock(); a.n += d; a.mu.Unlock() }
+func (a *atomicCounter) get() int64  { a.mu.Lock(); defer a.mu.Unlock(); return a.n }
 
 var c40Tiny = Params{
 	logMapHeight:       1, // 2 rows
@@ -1111,6 +1267,9 @@ var c40Mid = Params{
 
 func c40Run(t *testing.T, scaled bool) {
 	mc.Run(t, "C40", func(r *mc.R) {
+		if os.Getenv("C40_DEBUG") != "" {
+			log.SetDefault(log.NewLogger(log.NewTerminalHandlerWithLevel(os.Stdout, log.LevelWarn, false)))
+		}
 		if scaled != (valuesPerCallback < 1024) {
 			r.HarnessError(fmt.Sprintf("build does not match the step: valuesPerCallback=%d rowsPerBatch=%d maxMapsPerBatch=%d", valuesPerCallback, rowsPerBatch, maxMapsPerBatch))
 			return
@@ -1139,20 +1298,26 @@ func c40Run(t *testing.T, scaled bool) {
 			depth      int
 			hists      []int
 			cuts       []int
-			fewOps     bool // quick tier of the scaled build: 8 of the operations
+			fewOps     bool // quick tier of the scaled build: 5 chain operations + restarts/cutoffs
+			injBases   [][]string
+			injX, injY []string
 		}
 		var plans []plan
 		q := r.Quick()
 		if scaled {
 			plans = []plan{
-				{"scaled-tiny", c40Tiny, false, mc.Pick(r, 6, 9), 3, 2, mc.Pick(r, []int{0, 1}, []int{0, 1, 3}), mc.Pick(r, []int{2}, []int{0, 2, 5}), q},
-				{"scaled-mid", c40Mid, true, mc.Pick(r, 7, 9), 3, 2, mc.Pick(r, []int{0, 2}, []int{0, 2, 5}), mc.Pick(r, []int{4}, []int{0, 4}), q},
+				{"scaled-tiny", c40Tiny, false, mc.Pick(r, 6, 10), 3, 2, mc.Pick(r, []int{0, 1}, []int{0, 1, 3}), mc.Pick(r, []int{2}, []int{0, 2, 5}), q,
+					mc.Pick(r, [][]string{{}}, [][]string{{}, {"hist1"}}), mc.Pick(r, []string{"ext2"}, []string{"ext2", "reorg2+2"}), mc.Pick(r, []string{"reorg1+1", "reorg2+1"}, []string{"reorg1+1", "reorg2+1", "ext1"})},
+				{"scaled-mid", c40Mid, true, mc.Pick(r, 7, 10), 3, 2, mc.Pick(r, []int{0, 2}, []int{0, 2, 5}), mc.Pick(r, []int{4}, []int{0, 4}), q,
+					mc.Pick(r, [][]string{{}}, [][]string{{}, {"hist2"}}), mc.Pick(r, []string{"ext2"}, []string{"ext2", "reorg2+2"}), mc.Pick(r, []string{"reorg1+1"}, []string{"reorg1+1", "reorg2+1", "ext1"})},
 			}
 		} else {
 			plans = []plan{
-				{"tiny", c40Tiny, false, mc.Pick(r, 8, 10), 3, mc.Pick(r, 2, 3), []int{0, 1, 3}, []int{0, 2, 5}, false},
-				{"mid", c40Mid, true, mc.Pick(r, 8, 10), 4, mc.Pick(r, 2, 3), []int{0, 2, 5}, []int{0, 4}, false},
-				{"pkg-testParams", testParams, false, mc.Pick(r, 8, 10), 3, 2, []int{0, 3}, []int{0, 2}, false},
+				{"tiny", c40Tiny, false, mc.Pick(r, 8, 12), 3, mc.Pick(r, 2, 3), []int{0, 1, 3}, []int{0, 2, 5}, false,
+					[][]string{{}, {"hist1"}, {"hist3"}, {"cut2"}, {"ext3", "hist1"}}, []string{"ext2", "ext3", "reorg2+2"}, []string{"reorg1+1", "reorg2+1", "ext1", "cut2"}},
+				{"mid", c40Mid, true, mc.Pick(r, 8, 12), 4, mc.Pick(r, 2, 3), []int{0, 2, 5}, []int{0, 4}, false,
+					[][]string{{}, {"hist2"}, {"cut4"}, {"ext3", "hist2"}}, []string{"ext2", "ext3", "reorg2+2"}, []string{"reorg1+1", "reorg2+1", "ext1", "cut4"}},
+				{"pkg-testParams", testParams, false, mc.Pick(r, 8, 12), 3, mc.Pick(r, 2, 3), []int{0, 3}, []int{0, 2}, false, nil, nil, nil},
 			}
 		}
 		for _, pl := range plans {
@@ -1173,6 +1338,9 @@ func c40Run(t *testing.T, scaled bool) {
 				New:   func() mc.Sys { return c40New(cfg) },
 				Close: func(s mc.Sys) { s.(*c40Sys).close() },
 			})
+			if len(pl.injBases) > 0 && !r.Expired() {
+				c40InjectSweep(r, cfg, pl.injBases, pl.injX, pl.injY)
+			}
 			r.Bound(pl.name+".wall_s", fmt.Sprintf("%.1f", time.Since(t0).Seconds()))
 		}
 	})
